@@ -24,6 +24,13 @@ class Captured:
         self.body = body
         self.extensions = dict(request.extensions)
         self.nonce = request.headers.get("x-sim-nonce")
+        if self.nonce is None and b'"zz_nonce_' in body:
+            # calls through an API that takes no per-call headers (the generated query()/mutation() of the custom operation
+            # builder) carry their nonce in the operation name
+            import re as _re
+            m = _re.search(rb'"operationName"\s*:\s*"zz_nonce_(\w+)"', body)
+            if m:
+                self.nonce = m.group(1).decode()
         self.verify = None
 
     def header(self, name):
